@@ -314,7 +314,21 @@ impl Prop for C14 {
 			}
 			Case { ty, input: Input::from_bytes(b), variant: None }
 		});
-		prop_oneof![4 => s1, 2 => s2, 2 => s3, 1 => s4, 1 => s5].boxed()
+		// a valid text with an invisible character in front (byte order mark, zero-width space, ...):
+		// a route that "helpfully" strips it accepts what the constructor rejects, or changes the text
+		let s6 = (ty(), select(vec!["\u{feff}", "\u{200b}", "\u{2060}", " ", "\t", "\n", "\u{0}"]), any::<bool>()).prop_flat_map(|(ty, z, front)| {
+			structural(ty).prop_map(move |s| Case { ty, input: Input::Text(if front { format!("{z}{s}") } else { format!("{s}{z}") }), variant: None })
+		});
+		let s7 = (select(vec![Ty::Uri, Ty::UriRef, Ty::Iri, Ty::IriRef, Ty::UHost, Ty::IHost, Ty::UAuthority, Ty::IAuthority]), select(gen::NEAR_VALID_HOSTS.to_vec())).prop_map(|(ty, h)| {
+			let t = match ty {
+				Ty::Uri | Ty::Iri => format!("s://{h}/p"),
+				Ty::UriRef | Ty::IriRef => format!("//{h}"),
+				Ty::UAuthority | Ty::IAuthority => format!("u@{h}:1"),
+				_ => h.to_string(),
+			};
+			Case { ty, input: Input::Text(t), variant: None }
+		});
+		prop_oneof![16 => s1, 8 => s2, 8 => s3, 4 => s4, 4 => s5, 2 => s6, 1 => s7].boxed()
 	}
 
 	fn check(case: &Case, cx: &mut Ctx) -> Result<(), Failure> {
